@@ -203,7 +203,7 @@ def run_stream_a(fl, drv, har, ua, ub, name, enums=ENUMS):
     """Runs model and implementation on ua x ub. Returns (impl, model) PairResults or None."""
     lines, index = pair_lines(ua, ub, enums)
     impl_out = C.run_lines([har, "api"], lines, case_timeout=30)
-    model_out = C.run_lines([drv], lines, indexed=False)
+    model_out = C.run_lines(drv, lines, indexed=False)
     impl = PairResults(ua, ub)
     model = PairResults(ua, ub)
     bi = impl.load(index, impl_out)
@@ -427,7 +427,7 @@ def run_stream_b(fl, drv, har, prop):
             mlines.append("PAIRS %s %s ; %s ; %s" % (EN1, EN2, em, pm))
         else:
             mlines.append("PAIRS %s %s ; %s ; %s" % (EN1, EN2, pm, em))
-    mouts = C.run_lines([drv], mlines, indexed=False)
+    mouts = C.run_lines(drv, mlines, indexed=False)
     diffs = 0
     first = None
     hist = {}
@@ -481,8 +481,35 @@ def sizes(tier):
     return (600, 120) if tier == "quick" else (1800, 300)
 
 
+PROBES = [  # (flag, a, b, index into the pair word, value under the pinned code)
+    ("max", "O D 1 i32", "D 1 i32", "max", "B"),      # C12-2: max(?D, D) = D
+    ("weak", "AA 1 D 1 i32", "A 1 D 2 i32", 2, "1"),  # C12-1: weak although not fit
+    ("feq", "S 1 1 0 i32", "S 2 1 0 i32", 3, "1"),    # C13-2: two named structs equivalent
+]
+
+
+def detect_fixes(har):
+    """Which fix patches of ty.rs are in force in the implementation (probed on the witnesses);
+    selects the model variant (TyRel.fixes flags) the extracted model is run with."""
+    lines = ["PAIRS ; %s ; %s" % (a, b) for (_, a, b, _, _) in PROBES]
+    outs = C.run_lines([har, "api"], lines, case_timeout=30)
+    on = []
+    for (flag, a, b, idx, pinned), out in zip(PROBES, outs):
+        try:
+            w = out.split(" ")[1]
+            got = w.split(":")[1] if idx == "max" else w.split(":")[0][idx]
+        except Exception:
+            continue
+        if got != pinned:
+            on.append(flag)
+    return on
+
+
 def check(fl, drv, har, tier, prop):
     v = fl.v
+    fixes = detect_fixes(har)
+    drv = [drv] + (["fixes=" + ",".join(fixes)] if fixes else [])
+    v.coverage["model_in_force"] = ("TyRel.fixes flags on: %s" % ",".join(fixes)) if fixes else "no_fixes (pinned ty.rs)"
     n, _ = sizes(tier)
     U = build_universe(fl.rng.fork("universe"), n)
     res = run_stream_a(fl, drv, har, U, U, "A: all ordered pairs of the type universe (%d types), real Ty methods vs extracted model" % len(U))
